@@ -187,8 +187,17 @@ fn check_families(bad: &mut impl FnMut(&str, String), r: &Reply, want: Option<Wa
     }
 }
 
-fn random_query(rng: &mut ChaCha8Rng, t: Vec<u8>, token: Option<Vec<u8>>) -> (Krpc, bool) {
+/// `hot`: ids under which peers are (probably) stored on the node; targets and info-hashes are drawn
+/// from them in 40 % of the cases, so that replies depend on the store's contents.
+fn random_query(rng: &mut ChaCha8Rng, t: Vec<u8>, token: Option<Vec<u8>>, hot: &[Id]) -> (Krpc, bool) {
     let id = gen::rand_id(rng);
+    let pick = |rng: &mut ChaCha8Rng| -> Id {
+        if !hot.is_empty() && rng.gen_bool(0.4) {
+            *hot.choose(rng).unwrap()
+        } else {
+            gen::id(rng)
+        }
+    };
     match rng.gen_range(0..if token.is_some() { 6 } else { 4 }) {
         0 => (Krpc::query(t, id, Query::Ping), false),
         1 => (
@@ -196,7 +205,7 @@ fn random_query(rng: &mut ChaCha8Rng, t: Vec<u8>, token: Option<Vec<u8>>) -> (Kr
                 t,
                 id,
                 Query::FindNode {
-                    target: gen::id(rng),
+                    target: pick(rng),
                     want: gen::want(rng),
                 },
             ),
@@ -207,7 +216,7 @@ fn random_query(rng: &mut ChaCha8Rng, t: Vec<u8>, token: Option<Vec<u8>>) -> (Kr
                 t,
                 id,
                 Query::GetPeers {
-                    info_hash: gen::id(rng),
+                    info_hash: pick(rng),
                     want: gen::want(rng),
                 },
             ),
@@ -236,7 +245,7 @@ fn random_query(rng: &mut ChaCha8Rng, t: Vec<u8>, token: Option<Vec<u8>>) -> (Kr
                     t,
                     id,
                     Query::AnnouncePeer {
-                        info_hash: gen::id(rng),
+                        info_hash: pick(rng),
                         port: if rng.gen_bool(0.5) { None } else { Some(gen::port(rng)) },
                         token: tok,
                     },
@@ -249,7 +258,7 @@ fn random_query(rng: &mut ChaCha8Rng, t: Vec<u8>, token: Option<Vec<u8>>) -> (Kr
                 t,
                 id,
                 Query::AnnouncePeer {
-                    info_hash: gen::id(rng),
+                    info_hash: pick(rng),
                     port: if rng.gen_bool(0.5) { None } else { Some(gen::port(rng)) },
                     token: token.unwrap(),
                 },
@@ -318,11 +327,15 @@ async fn storm(ctx: Ctx, idx: u64) -> Report {
         }
     }
 
+    // ids under which peers are stored (see `random_query`)
+    let mut hot: Vec<Id> = Vec::new();
     // Optionally push the store over its capacity so that 202 is exercised.
-    let fill = !opts.read_only && rng.gen_bool(0.25);
+    let fill = !opts.read_only && rng.gen_bool(0.3);
     if fill {
         let ih = gen::rand_id(&mut rng);
-        let fam = node_v6;
+        hot.push(ih);
+        // peers of either family, whatever the node's own
+        let fam = rng.gen_bool(0.5);
         let tok = tokens.get(&(fam, 0)).cloned().unwrap_or_default();
         // either 520 distinct pairs (the store fills up, 202 from then on) or the same few pairs
         // announced over and over (renewals must not use up capacity: always acknowledged)
@@ -376,7 +389,12 @@ async fn storm(ctx: Ctx, idx: u64) -> Report {
         let roll = rng.gen_range(0..100);
         let (bytes, expect) = if roll < 55 {
             let t = gen::tid(&mut rng);
-            let (msg, right) = random_query(&mut rng, t, tokens.get(&(fam, ip)).cloned());
+            let (msg, right) = random_query(&mut rng, t, tokens.get(&(fam, ip)).cloned(), &hot);
+            if let Body::Query { q: Query::AnnouncePeer { info_hash, .. }, .. } = &msg.body {
+                if right && hot.len() < 64 {
+                    hot.push(*info_hash);
+                }
+            }
             let mut bytes = msg.encode();
             // half of the queries carry keys outside BEP5 (client version, read-only flag)
             if rng.gen_bool(0.3) {
